@@ -681,6 +681,7 @@ def write_evidence(prop, tier, seed, proof, run, wall, code, searched):
         ev["coverage"]["obligations"] += int(extra.get("obligations", 0))
         ev["coverage"]["discharged"] += int(extra.get("discharged", 0))
         ev["coverage"].update(extra.get("coverage", {}))
-    d = VERIF / "evidence"
-    d.mkdir(exist_ok=True)
+    # runs against a patched scratch copy (tools/with_patched_repo) must never overwrite the evidence of /repo itself
+    d = VERIF / "evidence" if REPO.resolve() == Path("/repo") else VERIF / "evidence" / "_scratch"
+    d.mkdir(parents=True, exist_ok=True)
     (d / f"{prop.id}.json").write_text(json.dumps(ev, indent=1, default=str) + "\n")
